@@ -114,6 +114,33 @@ class C13Machine(RuleBasedStateMachine):
         self.ex.flags.add('stdio')
         self.ex.fd_write(which, bufs)
 
+    @rule(target=closed, name=st.sampled_from(['rn1', 'rn2']), isdir=st.booleans(),
+          longer=st.sampled_from(['x', '.renamed-to-a-much-longer-name-than-before-so-that-any-stored-copy-has-to-grow', '-2']),
+          bufsize=st.sampled_from([64, 256]))
+    def rename_open(self, name, isdir, longer, bufsize):
+        # the entry a live descriptor was opened on is renamed (to a shorter / longer name): the descriptor stays valid; whatever
+        # the implementation remembers about it must survive its own bookkeeping (no stale or freed path)
+        ex = self.ex
+        root = ex.preopens[0]
+        if isdir:
+            ex.path_op('create_directory', root, name)
+            fd = ex.open_dir(root, name)
+        else:
+            fd = ex.path_open(root, name, 1, True, True, False)
+        if fd is None:
+            return multiple()
+        ex.path_op('rename', root, name, name + longer, root)
+        if isdir:
+            ex.readdir(fd, bufsize, None, False)
+            ex.path_op('filestat_get', fd, 'x')
+            ex.path_op('create_directory', fd, 'sub')
+        else:
+            ex.fd_write(fd, [b'still writable'])
+            ex.fd_filestat_get(fd, False)
+        ex.flags.add('listed_before_close')
+        ex.fd_close(fd)
+        return fd
+
     @rule(target=closed, which=st.sampled_from([1, 1, 2]))
     def close_std(self, which):
         # from here on the number joins the closed ones: every call on it must answer BADF, also after later opens
